@@ -54,7 +54,10 @@ def gen_sub(rng, name, inner):
                 kw = {}
                 for p in sub["params"]:
                     if params and rng.random() < 0.5:
-                        kw[p] = ("par", rng.choice(params))      # pass a parameter through
+                        q = rng.choice(params)
+                        # pass a parameter through, bare or inside an expression (its name may be that of
+                        # another parameter of the called program)
+                        kw[p] = ("par", q) if rng.random() < 0.6 else ("add", ("par", q), ("int", "1"))
                     else:
                         kw[p] = lit(rng, 1) if rng.random() < 0.7 else ("float", "0.75")
                 calls.append(("call", sub["name"], kw, ms))
@@ -196,9 +199,62 @@ def materialise(files):
     return root, out
 
 
-def check_tree(files, main, inlined, proc_dirs, model_lines=None):
+def symlink_variant(root, real, main):
+    """move one included file that itself includes something to zz_shared/ and leave a symbolic link in its
+    place; next to the link target put decoys of the files it includes (same relative names, other
+    content). Includes are resolved next to the path that was written, so nothing changes."""
+    cands = [rel for rel, c in real.items() if rel != main and "include " in c]
+    if not cands:
+        return False
+    rel = sorted(cands)[0]
+    src = os.path.join(root, rel)
+    dst_dir = os.path.join(root, "zz_shared")
+    os.makedirs(dst_dir, exist_ok=True)
+    dst = os.path.join(dst_dir, os.path.basename(rel))
+    os.replace(src, dst)
+    os.symlink(dst, src)
+    import re as _re
+    for inc in _re.findall(r'include "([^"]+)"', real[rel]):
+        if not os.path.isabs(inc):
+            decoy = os.path.normpath(os.path.join(dst_dir, inc))
+            if not os.path.exists(decoy) and decoy.startswith(root):
+                os.makedirs(os.path.dirname(decoy), exist_ok=True)
+                name = os.path.splitext(os.path.basename(inc))[0].capitalize()
+                with open(decoy, "w", encoding="utf-8") as f:
+                    f.write("name %s\nversion 1.0\n\nDecoy | 0\n" % name)
+    return True
+
+
+def retry_after_missing(root, real, main, want):
+    """a load that fails because a nested include is missing leaves nothing behind: once the file is
+    there, the same load gives the program"""
+    cands = [rel for rel, c in real.items() if rel != main and "include " not in c]
+    if not cands:
+        return None
+    rel = sorted(cands)[-1]
+    path = os.path.join(root, rel)
+    hidden = path + ".hidden"
+    os.replace(path, hidden)
+    try:
+        r1 = oracles.impl_load_file(root, main, None, True)
+    finally:
+        os.replace(hidden, path)
+    if r1[0] == "ok":
+        return None                      # the file was not needed
+    r2 = oracles.impl_load_file(root, main, None, True)
+    if r2[0] != "ok":
+        return "after a load that failed on a missing include (%s), the same load with the file present raises %r" % (rel, r2[1])
+    d = common.cmp_impl(canon.canon_program(r2[1])[1], want, loose_kinds=True)
+    if d:
+        return "after a failed load the same tree loads differently: " + "; ".join(d[:3])
+    return None
+
+
+def check_tree(files, main, inlined, proc_dirs, model_lines=None, extras=0):
     root, real = materialise(files)
     try:
+        if extras & 1:
+            symlink_variant(root, real, main)
         ib, ob = core.impl_canon_loads(inlined)
         if ib[0] != "prog":
             return "inlined script is refused with %s: %r" % (ib[1:3], ob)
@@ -213,7 +269,11 @@ def check_tree(files, main, inlined, proc_dirs, model_lines=None):
             d = common.cmp_impl(a, ib[1], loose_kinds=True)
             if d:
                 return "process directory %r: %s" % (pd, "; ".join(d[:4]))
-        if model_lines is not None:
+        if extras & 2:
+            msg = retry_after_missing(root, real, main, ib[1])
+            if msg:
+                return msg
+        if model_lines is not None and not (extras & 1):
             fl = []
             for rel, content in real.items():
                 fl += [os.path.join(root, rel), content]
@@ -225,7 +285,8 @@ def check_tree(files, main, inlined, proc_dirs, model_lines=None):
 
 def replay(ctx, data):
     if data.get("kind") == "tree":
-        return check_tree(data["files"], data["main"], data["inlined"], [tuple(x) for x in data["proc_dirs"]])
+        return check_tree(data["files"], data["main"], data["inlined"], [tuple(x) for x in data["proc_dirs"]],
+                          extras=data.get("extras", 0))
     return oracles.generic_replay(data)
 
 
@@ -234,7 +295,7 @@ def run(ctx):
                 "numbers in arbitrary first-use order, 0-2 template parameters, nested includes calling earlier "
                 "subroutines and passing parameters through), a main file including them by relative, ./ and "
                 "absolute paths with repeated include lines and calling each 1-3 times; loaded from 3 (quick) / 5 "
-                "(thorough) process directories by absolute and relative file name; oracle: load(main) equals "
+                "(thorough) process directories by absolute and relative file name; every fourth tree has an included file replaced by a symbolic link into another directory that holds decoys, every third is first loaded with a nested file missing and then again; oracle: load(main) equals "
                 "loads(hand-inlined text computed from the generator's AST); model LOAD vs implementation; "
                 "non-trivial = at least two calls of one subroutine or a nested include; distinct by file contents")
     n = ctx.n(150, 2500)
@@ -247,10 +308,15 @@ def run(ctx):
         for k, v in info.items():
             ctx.count("%s:%d" % (k, min(v, 6)))
         ctx.sample({"files": files, "main": main})
-        msg = check_tree(files, main, inlined, proc_dirs, lines)
+        extras = (1 if i % 4 == 1 else 0) | (2 if i % 3 == 2 else 0)
+        if extras & 1:
+            ctx.count("an included file is a symbolic link")
+        if extras & 2:
+            ctx.count("retry after a missing include")
+        msg = check_tree(files, main, inlined, proc_dirs, lines, extras)
         if msg:
             ctx.violation("include: " + msg, {"kind": "tree", "files": files, "main": main, "inlined": inlined,
-                                              "proc_dirs": proc_dirs})
+                                              "proc_dirs": proc_dirs, "extras": extras})
     outs = core.model_batch([l for l, _ in lines])
     for (l, inlined), o in zip(lines, outs):
         m = sx.dec_result(o)
